@@ -681,7 +681,28 @@ def inline_temporaries(f, r):
         ast.fix_missing_locations(f)
         return good
     if len(good) < k or k <= 0:
-        return []
+        # the numbers of locals do not tell (one temporary added, another removed, a third renamed): a new local whose binding statement has a
+        # shape that NO local of the reference has cannot be a renamed local of the reference - it is an added temporary and is inlined
+        try:
+            from .renames import binding_skeletons
+            sk = dict(zip([n for n, _ in seq], binding_skeletons(f)))
+            ref_sk = set(r.get("skel") or [])
+        except Exception:
+            sk, ref_sk = {}, set()
+        added = [v for v in good if ref_sk and sk.get(v) is not None and sk[v] not in ref_sk and isinstance(cands[v][2], (ast.Call, ast.Attribute, ast.Subscript))
+                 and not cands[v][3]]
+        for v in sorted(added, key=lambda v_: cands[v_][0].lineno):
+            d, uses, value, keep_def = cands[v]
+            for u in uses:
+                _replace_in(f, u, copy.deepcopy(value))
+            for block in blocks_of(f):
+                if d in block:
+                    block.remove(d)
+                    if not block:
+                        block.append(ast.copy_location(ast.Pass(), d))
+        if added:
+            ast.fix_missing_locations(f)
+        return added
     if len(good) == k:
         chosen = good
     else:
